@@ -2,6 +2,7 @@ import Pyunicorn.Model.Proto
 import Pyunicorn.Model.Visibility
 import Pyunicorn.Model.VisibilityExt
 import Pyunicorn.Model.VisibilityBetw
+import Pyunicorn.Model.NetBetwDef
 import Pyunicorn.Model.VisibilityScale
 /-! Line-protocol driver of C14: one request per line on stdin, one answer per line.
 
@@ -20,7 +21,9 @@ import Pyunicorn.Model.VisibilityScale
 * `betw x t|- missing horizontal` — round 3:
   `retarded_betweenness|advanced_betweenness|trans_betweenness` computed by C03's model of the
   kernel `_nsi_betweenness` (with the masks / index arrays the three methods build), then the same
-  three from the pair-dependency definition `betwSpec`
+  three from the pair-dependency definition `betwSpec`, then (round 5b) the same three as C03's
+  `NetBetw.interregionalCount` over enumerated shortest paths — the right-hand side of the theorems
+  `betweenness_kernel_eq_count` / `visibility_betweenness_kernel_eq_count`
 * `hvgf32 N x` — the horizontal kernel on the series converted to float32 (`rndF32` on every sample)
 * `rnd32 q1,q2,…` — round 4: `rndF32` of every rational (compared with the hardware's binary32
   conversion, subtraction and division)
@@ -119,7 +122,13 @@ def answer (toks : List String) : String :=
         let r := List.range N
         join [showRats (r.map (retBetw N A)), showRats (r.map (advBetw N A)),
               showRats (r.map (transBetw N A)), showRats (r.map (retBetwSpec N A)),
-              showRats (r.map (advBetwSpec N A)), showRats (r.map (transBetwSpec N A))] "|"
+              showRats (r.map (advBetwSpec N A)), showRats (r.map (transBetwSpec N A)),
+              showRats (r.map fun i => NetBetw.interregionalCount N (adjFn A) (Net.dist N (adjFn A))
+                (pastIdx i) (pastIdx i) i),
+              showRats (r.map fun i => NetBetw.interregionalCount N (adjFn A) (Net.dist N (adjFn A))
+                (futureIdx N i) (futureIdx N i) i),
+              showRats (r.map fun i => NetBetw.interregionalCount N (adjFn A) (Net.dist N (adjFn A))
+                (pastIdx i) (futureIdx N i) i)] "|"
   | ["matR", x, t, mis, hor] =>
       showLog (vals x).length (classLogR rndF32 (vals x) (if t == "-" then none else some (rats t))
         (mis == "1") (hor == "1"))
